@@ -461,6 +461,56 @@ func NativeCorruptions(spec *Spec, native any) []Corruption {
 				})
 			}
 		case KObject:
+			if s.Struct != "" {
+				// a struct-mapped object's native value is a Go struct (or a pointer to one): every property that has a
+				// field is corrupted inside a copy of the struct; the path names the PROPERTY (its id), not the Go field
+				sv, isPtr := v, false
+				if sv.Kind() == reflect.Pointer {
+					if sv.IsNil() {
+						return
+					}
+					sv, isPtr = sv.Elem(), true
+				}
+				if sv.Kind() != reflect.Struct {
+					return
+				}
+				for i := range s.Props {
+					p := &s.Props[i]
+					fi := -1
+					for j := 0; j < sv.NumField(); j++ {
+						f := sv.Type().Field(j)
+						tag := strings.Split(f.Tag.Get("json"), ",")[0]
+						if tag == p.Name || (tag == "" && f.Name == p.Name) {
+							fi = j
+						}
+					}
+					if fi < 0 || !sv.Type().Field(fi).IsExported() {
+						continue
+					}
+					fv := sv.Field(fi)
+					if fv.Kind() == reflect.Pointer && fv.IsNil() {
+						continue // an unset optional property
+					}
+					walk(p.Type, fv, cp(path, p.Name), func(with reflect.Value) any {
+						n := reflect.New(sv.Type()).Elem()
+						n.Set(sv)
+						if !with.Type().AssignableTo(n.Field(fi).Type()) {
+							if !with.Type().ConvertibleTo(n.Field(fi).Type()) {
+								return rebuild(v) // cannot be placed: leave the value as it is (an accepted value: no verdict)
+							}
+							with = with.Convert(n.Field(fi).Type())
+						}
+						n.Field(fi).Set(with)
+						if isPtr {
+							pn := reflect.New(sv.Type())
+							pn.Elem().Set(n)
+							return rebuild(pn)
+						}
+						return rebuild(n)
+					})
+				}
+				return
+			}
 			m, ok := v.Interface().(map[string]any)
 			if !ok {
 				return
